@@ -340,6 +340,14 @@ def _structure_problems(d, sc):
                         probs.append(f"variable {v}: input layer has {name}={getattr(L, name, None)}, the arguments given for variable {v} say {name}={val}")
             if len(by.get(v, [])) != 1:
                 probs.append(f"variable {v} has {len(by.get(v, []))} input layers")
+        if k == "hmm":
+            # the chain follows the requested ordering: one sum layer per suffix ordering[t:]
+            order = d["ordering"]
+            for t in range(len(order)):
+                try:
+                    _the_sum(sc, order[t:])
+                except LookupError as e:
+                    probs.append(f"chain position {t}: {e}")
     if k in ("cp", "tucker", "tt"):
         by = _inputs_of(sc)
         for j, dim in enumerate(d["shape"]):
